@@ -159,8 +159,12 @@ def run(prog, tier):
     ok, why = False, ""
     if len(a) == 1:
         t_ = rp.term(a[0].value, a[0])
-        ok = any(pmatch(t_, pt) is not None for pt in (f"self.pool.map(self.adv_func, [({n_param}, _c) for _c in self.chains])",
-                                                        f"list(self.pool.map(self.adv_func, [({n_param}, _c) for _c in self.chains]))"))
+        tasks = (f"[({n_param}, _c) for _c in self.chains]", f"zip([{n_param}] * len(self.chains), self.chains)",
+                 f"[({n_param}, _c) for _c in list(self.chains)]", f"list(zip([{n_param}] * len(self.chains), self.chains))")
+        forms = [f"self.pool.map(self.adv_func, {tk_})" for tk_ in tasks] + [f"self.pool.map(self.adv_func, {tk_}, **_)" for tk_ in tasks] + \
+                [f"list(self.pool.map(self.adv_func, {tk_}))" for tk_ in tasks] + [f"list(self.pool.imap(self.adv_func, {tk_}))" for tk_ in tasks] + \
+                [f"list(self.pool.imap(self.adv_func, {tk_}, **_))" for tk_ in tasks]        # map / imap keep the order of the tasks (imap_unordered does not)
+        ok = any(pmatch(t_, pt) is not None for pt in forms)
         why = U(t_)
     ra = Resolver(af, prog, c2.module, c2)
     arg = af.args.args[0].arg
